@@ -19,6 +19,19 @@ def sh(cmd, cwd, timeout=900):
     r = subprocess.run(cmd, cwd=cwd, env=ENV, capture_output=True, text=True, shell=isinstance(cmd, str), timeout=timeout)
     return r.returncode, r.stdout + r.stderr
 
+def needs_from_notes(path):
+    """The sub-agent's own statement of what the defect needs in order to show (section of notes.md)."""
+    if not os.path.exists(path):
+        return ""
+    txt = open(path).read()
+    parts = re.split(r"^#+ *(.*)$", txt, flags=re.M)
+    # parts: [pre, h1, body1, h2, body2, ...]
+    for i in range(1, len(parts) - 1, 2):
+        if re.search(r"need|manifest|trigger|see it|to show", parts[i], re.I):
+            return " ".join(parts[i + 1].split())[:900]
+    m = re.search(r"(?is)(needs?|requires?|only when|trigger)[^\n]{0,400}", txt)
+    return " ".join(m.group(0).split())[:600] if m else ""
+
 def main():
     sid, prop, src = sys.argv[1], sys.argv[2], os.path.abspath(sys.argv[3])
     props = [prop]
@@ -83,6 +96,7 @@ def main():
                 shutil.copy(d, out_dir)
             if os.path.exists(os.path.join(src, "notes.md")):
                 shutil.copy(os.path.join(src, "notes.md"), out_dir)
+        meta["needs_to_manifest"] = needs_from_notes(os.path.join(out_dir, "notes.md"))
         meta["what_i_ran"] = "tools/seedcheck.py: patch -p1 onto a scratch copy of /repo; go build; tools/baseline.sh (all 663 baseline tests); go test -run <demo> with and without the patch; bin/apcheck -target <scratch> -property <props>"
         json.dump(meta, open(os.path.join(out_dir, "meta.json"), "w"), indent=1)
     print(json.dumps({k: meta[k] for k in meta if k not in ("demo_output_with_patch",)}, indent=1))
